@@ -252,7 +252,7 @@ Definition cb_ok (g : cfg) (first : Z) (pre : list rop) (ths : list tkind) (sche
   sched_ok g first pre ths obs cbs final
   && list_eqb change_eqb (firstn (List.length (plog p0)) cbs) (plog p0)
   && cb_multiset_ok g ths obs newcbs
-  && implb (nodup_changes (slog (cst G))) (nodup_changes newcbs)
+  && implb (nodup_changes (skipn (List.length (plog p0)) (slog (cst G)))) (nodup_changes newcbs)
   && perm_eqb cbs (slog (cst G)).
 
 (* ---- concurrent Gets with per-call outcomes (no use of the LTS for the Get clause) ----
@@ -284,15 +284,45 @@ Definition getw_res_ok (o : wopts) (commit : option client) (k : wkind) (r : rre
   | _, _ => false
   end.
 
+(* the per-call oracle of cb_ok for threads with their own outcomes: every Add/Remove reported exactly
+   its own transition (from what it returned), once; whatever else was reported is an Auto change
+   nil -> c under a name for which some Get thread's own factory yielded c after its own fallback missed *)
+Fixpoint expected_cbsW (ths : list wkind) (obs : list rres) : list change :=
+  match ths, obs with
+  | WTAdd n c :: ths', RClient old :: obs' => mkChange n old c false :: expected_cbsW ths' obs'
+  | WTRemove n :: ths', RClient old :: obs' =>
+      if old =? nil_client then expected_cbsW ths' obs' else mkChange n old nil_client false :: expected_cbsW ths' obs'
+  | _ :: ths', _ :: obs' => expected_cbsW ths' obs'
+  | _, _ => []
+  end.
+
+Definition autoW_ok (o : wopts) (ths : list wkind) (ch : change) : bool :=
+  cauto ch && (cold ch =? nil_client)
+  && existsb (fun k => match k with
+                       | WTGet m fbo fao =>
+                           String.eqb m (cname ch)
+                           && match fb_yield o fbo with
+                              | None => option_eqb Z.eqb (fac_yield o fao) (Some (cnew ch))
+                              | Some _ => false
+                              end
+                       | _ => false
+                       end) ths.
+
+Definition cbw_multiset_ok (o : wopts) (ths : list wkind) (obs : list rres) (cbs : list change) : bool :=
+  match remove_all (expected_cbsW ths obs) cbs with
+  | Some rest => forallb (autoW_ok o ths) rest
+  | None => false
+  end.
+
 (* all calls returned.  Any threads: the callbacks are a permutation of the transition log (commit
-   order, from RouterCbW.v's run of the same schedule).  Concurrent first Gets of one name on a fresh
+   order, from RouterCbW.v's run of the same schedule), and the per-call oracle above holds.  Concurrent first Gets of one name on a fresh
    router, each with its own fallback/factory outcomes: at most ONE Auto change nil -> c was reported
    and nothing else; c is what some caller's own factory yielded after its own fallback missed;
    every result is justified (getw_res_ok); the registry holds c (or nothing) *)
 Definition schedw_ok (o : wopts) (ths : list wkind) (sched : list nat) (obs : list rres) (cbs : list change)
            (final : list (string * client)) : bool :=
   let G := cgrunW o ths sched (cginitW (init 1) ths) in
-  perm_eqb cbs (slog (cst G)) &&
+  perm_eqb cbs (slog (cst G)) && cbw_multiset_ok o ths obs cbs &&
   match same_getw_name ths with
   | None => true
   | Some n =>
@@ -442,6 +472,7 @@ Definition C12_guard (c : c12case) : bool :=
   | KDefaultSeq _ steps _ => steps_wf steps
   | KStreamSession _ rs _ => recvd_wf rs
   | KSched _ first pre ths _ _ _ _ | KSchedCb _ first pre ths _ _ _ _ => sched_guard first pre ths
+  | KSchedW _ ths _ _ _ _ => forallb (fun k => match k with WTAdd _ c => negb (c =? nil_client) | _ => true end) ths
   | _ => true
   end.
 
